@@ -90,7 +90,11 @@ func (st *Store) RoundTrip(req *http.Request) (*http.Response, error) {
 	if fault.Fire("http-conn-err") {
 		return nil, ErrConn
 	}
-	data, ok := st.Objects[req.URL.Path]
+	// an object stored under "host/path" is served to that host only; a bare path to every host
+	data, ok := st.Objects[req.URL.Host+req.URL.Path]
+	if !ok {
+		data, ok = st.Objects[req.URL.Path]
+	}
 	if !ok {
 		return resp(req, 404, nil, []byte("not found\n"), -1), nil
 	}
